@@ -15,30 +15,48 @@ open Ctrmml Ctrmml.Player Ctrmml.Mds Ctrmml.WTrace Ctrmml.WFold Ctrmml.Refine Ct
 def WFTrack (song : Song) (tevs : List Event) : Prop :=
   NoEnd tevs ∧ BracketsTimeless tevs ∧ (∀ e ∈ tevs, SimpleEv e) ∧ ∃ items, perf song tevs = .ok items
 
-theorem emits_noseg {m : List (Int × Nat)} {r r' : Nat} {g g' : Bool} {its : List TraceItem} {ms : List MEv}
-    (h : Emits m r g its ms r' g') (hn : ∀ it ∈ its, it.ev.type ≠ ev_SEGNO) : g' = g := by
+theorem emits_noseg {m : List (Int × Nat)} {d : Bool} {r r' : Nat} {g g' : Bool} {its : List TraceItem} {ms : List MEv}
+    (h : Emits m d r g its ms r' g') (hn : ∀ it ∈ its, it.ev.type ≠ ev_SEGNO) : g' = g := by
   induction h with
   | nil => rfl
-  | @cons r g it its b ms r' g' _ _ ih =>
+  | @cons d r g it its b ms r' g' _ _ ih =>
     have h1 : (it.ev.type == ev_SEGNO) = false := by simpa using hn it (by simp)
     rw [ih (fun x hx => hn x (by simp [hx])), h1]; simp
 
 theorem type_segno_kind {e : Event} (t : e.type = ev_SEGNO) : e.kind = .segno := by
   unfold Event.kind kindOfType; simp +decide [t]
 
-/-- the list registered under `key` is what the writer makes of the track `key` names — stated for
-keys of plain calls (no drum flags) whose track is well-formed and has no loop point -/
+/-- a drum routine the writer theorem applies to: a forest without notes, drum-mode switches and
+(for the expansion to be defined) structural faults, then the routine's note -/
+def RoutineOK (song : Song) (tevs : List Event) (fpre : List Tree.Node) (note : Event) (post : List Event) : Prop :=
+  tevs = flattenL fpre ++ note :: post ∧ closedL fpre ∧ BracketsTimeless (flattenL fpre) ∧
+  (∃ items, Expand.expL (callK song limit) 0 false fpre = .ok items) ∧
+  note.type = ev_NOTE ∧ (0 ≤ note.param ∧ note.param < 94) ∧
+  ∀ e ∈ flattenL fpre, SimpleEv e ∧ e.type ≠ ev_NOTE ∧ e.type ≠ ev_DRUM_MODE
+
+/-- the list registered under `key` is what the writer makes of the track `key` names: for the key
+of a call made in drum-mode state `b`, whose track is well-formed and has no loop point, `Emits` of
+the track in state `b`, the pending rest, `FINISH`; for the key of a drum routine, `Emits` of the
+events before its note, what is flushed in front of the note, and `DMFINISH` with the note number -/
 def FlatSub (song : Song) (m : List (Int × Nat)) (key : Int) (evs : List MEv) : Prop :=
-  ∀ (t : Int) (tevs : List Event), key = subKey t false false → song.track? (trackIdOfParam t) = some tevs →
+  (∀ (t : Int) (b : Bool) (tevs : List Event), key = subKey t false b → song.track? (trackIdOfParam t) = some tevs →
     WFTrack song tevs → (∀ e ∈ tevs, e.kind ≠ .segno) →
-    ∃ ms r, Emits m 0 false (tevs.map fun e => tItem e e) ms r false ∧ r < 65536 ∧
-      evs = ms ++ flushL r ++ [⟨mds_FINISH, 0⟩]
+    ∃ ms r, Emits m b 0 false (tevs.map fun e => tItem e e) ms r false ∧ r < 65536 ∧
+      evs = ms ++ flushL r ++ [⟨mds_FINISH, 0⟩]) ∧
+  (∀ (t : Int) (tevs : List Event) (fpre : List Tree.Node) (note : Event) (post : List Event), key = subKey t true false →
+    song.track? (trackIdOfParam t) = some tevs → RoutineOK song tevs fpre note post →
+    ∃ ms r g, Emits m false 0 false ((flattenL fpre).map fun e => tItem e e) ms r g ∧ r < 65536 ∧
+      evs = ms ++ (prepR r (tItem note note)).1 ++ [⟨mds_DMFINISH, u16 note.param⟩])
 
 theorem FlatSub.mono {song : Song} {m m' : List (Int × Nat)} (hm : ∀ p ∈ m, p ∈ m') {key : Int} {evs : List MEv}
     (h : FlatSub song m key evs) : FlatSub song m' key evs := by
-  intro t tevs hk htr hwf hns
-  obtain ⟨ms, r, he, hr, ho⟩ := h t tevs hk htr hwf hns
-  exact ⟨ms, r, he.mono hm, hr, ho⟩
+  refine ⟨?_, ?_⟩
+  · intro t b tevs hk htr hwf hns
+    obtain ⟨ms, r, he, hr, ho⟩ := h.1 t b tevs hk htr hwf hns
+    exact ⟨ms, r, he.mono hm, hr, ho⟩
+  · intro t tevs fpre note post hk htr hro
+    obtain ⟨ms, r, g, he, hr, ho⟩ := h.2 t tevs fpre note post hk htr hro
+    exact ⟨ms, r, g, he.mono hm, hr, ho⟩
 
 /-- every finished subroutine (not in `hs`: still being converted) is flat -/
 def Flat (song : Song) (c : Conv) (hs : List Nat) : Prop :=
@@ -54,9 +72,9 @@ theorem Flat.congr {song : Song} {c c' : Conv} {hs : List Nat} (h : Flat song c 
   obtain ⟨evs, he, hf⟩ := h p hp hn
   exact ⟨evs, by rw [h2]; exact he, by rw [h1]; exact hf⟩
 
-theorem subKey_inj {t t' : Int} {a b : Bool} (h : subKey t false false = subKey t' a b) : t = t' ∧ a = false ∧ b = false := by
+theorem subKey_inj {t t' : Int} {a b a' b' : Bool} (h : subKey t a b = subKey t' a' b') : t = t' ∧ a = a' ∧ b = b' := by
   unfold subKey at h
-  cases a <;> cases b <;> simp at h <;> first | exact ⟨by omega, rfl, rfl⟩ | omega
+  cases a <;> cases b <;> cases a' <;> cases b' <;> simp at h <;> first | exact ⟨by omega, rfl, rfl⟩ | omega
 
 structure WInv2 (song : Song) (d : DataInfo) (n : Nat) : Prop where
   hook : ∀ c w it c' w' L P, Inv song d c (w.out :: L) P → Flat song c P.hs → Mds.hook song d n c w it = .ok (c', w') →
@@ -184,24 +202,47 @@ theorem sub_succ_flat {song : Song} {d : DataInfo} (hpc : PlatformClean d) (hne 
         by_cases hpk : p.2 = c.subList.length
         · have hpe : p = (subKey t a b, c.subList.length) := pair_eq_of_val hi2.maps.sub hp hmem2 hpk
           subst hpe
-          refine ⟨w.out, by show (c2.subList.set c.subList.length w.out)[c.subList.length]? = some w.out; simp [hlt], ?_⟩
-          intro t' tevs hk htr' hwf hns
-          obtain ⟨rfl, rfl, rfl⟩ := subKey_inj hk.symm
-          rw [htr] at htr'
-          obtain rfl : evs = tevs := Option.some.inj htr'
-          obtain ⟨hr', hbt, hsimple, items, hperf⟩ := hwf
-          cases n with
-          | zero => simp [runWriter] at hr
-          | succ n' =>
-            obtain ⟨ms, r, g, hem, hrl, hout, _, _⟩ := writer_flat song evs hpc hne hr' hbt hperf hsimple n' 20000000 c1
-              { drumEnabled := false, inDrum := false, trackId := t' } c2 w L _ ⟨rfl, rfl, rfl, by show (0 : Nat) < 65536; omega⟩ h1 hr
-            have hg : g = false := emits_noseg hem (by
-              intro it hit
-              obtain ⟨e, he, rfl⟩ := List.mem_map.mp hit
-              exact fun ht => hns e he (type_segno_kind ht))
-            subst hg
-            refine ⟨ms, r, hem, hrl, ?_⟩
-            simpa using hout
+          refine ⟨w.out, by show (c2.subList.set c.subList.length w.out)[c.subList.length]? = some w.out; simp [hlt], ?_, ?_⟩
+          · intro t' b' tevs hk htr' hwf hns
+            obtain ⟨rfl, rfl, rfl⟩ := subKey_inj hk
+            rw [htr] at htr'
+            obtain rfl : evs = tevs := Option.some.inj htr'
+            obtain ⟨hr', hbt, hsimple, items, hperf⟩ := hwf
+            cases n with
+            | zero => simp [runWriter] at hr
+            | succ n' =>
+              obtain ⟨ms, r, g, hem, hrl, hout, _, _⟩ := writer_flat song evs hpc hne hr' hbt hperf hsimple n' 20000000 c1
+                { drumEnabled := b, inDrum := false, trackId := t } c2 w L _ ⟨rfl, by show (0 : Nat) < 65536; omega⟩ rfl h1 hr
+              have hg : g = false := emits_noseg hem (by
+                intro it hit
+                obtain ⟨e, he, rfl⟩ := List.mem_map.mp hit
+                exact fun ht => hns e he (type_segno_kind ht))
+              subst hg
+              refine ⟨ms, r, hem, hrl, ?_⟩
+              simpa using hout
+          · intro t' tevs fpre note post hk htr' hro
+            obtain ⟨rfl, rfl, rfl⟩ := subKey_inj hk
+            rw [htr] at htr'
+            obtain rfl : evs = tevs := Option.some.inj htr'
+            obtain ⟨heq, hcl, hbt, ⟨items, hexp⟩, hnote, hp, hpre⟩ := hro
+            cases n with
+            | zero => simp [runWriter] at hr
+            | succ n' =>
+              have hdr : dAfterL false ((flattenL fpre).map fun e => tItem e e) = false := by
+                have : ∀ (l : List Event), (∀ e ∈ l, e.type ≠ ev_DRUM_MODE) → dAfterL false (l.map fun e => tItem e e) = false := by
+                  intro l
+                  induction l with
+                  | nil => intro _; rfl
+                  | cons e l ih =>
+                    intro hl
+                    have h1 : ¬ (tItem e e).ev.type = ev_DRUM_MODE := hl e (by simp)
+                    simp only [List.map_cons, dAfterL, dAfter, if_neg h1]
+                    exact ih (fun x hx => hl x (by simp [hx]))
+                exact this _ (fun e he => (hpre e he).2.2)
+              obtain ⟨ms, r, g, hem, hrl, hout, _, _⟩ := writer_routine song evs hpc hne fpre note post heq hcl hbt hexp hnote hp
+                (fun e he => (hpre e he).1) (fun e he => (hpre e he).2.1) n' 20000000 c1
+                { drumEnabled := false, inDrum := true, trackId := t } c2 w L _ ⟨rfl, by show (0 : Nat) < 65536; omega⟩ rfl hdr h1 hr
+              exact ⟨ms, r, g, hem, hrl, by simpa using hout⟩
         · obtain ⟨evs', he, hfl⟩ := hf2 p hp (by simp [hpk, hnot])
           refine ⟨evs', ?_, hfl⟩
           show (c2.subList.set c.subList.length w.out)[p.2]? = some evs'
@@ -259,7 +300,7 @@ theorem writerInv2 {song : Song} {d : DataInfo} (hpc : PlatformClean d) (hne : S
 /-- what the writer made of a channel track -/
 def ChanFlat (song : Song) (m : List (Int × Nat)) (id : Nat) (evs : List MEv) : Prop :=
   ∀ tevs, song.track? id = some tevs → WFTrack song tevs →
-    ∃ items ms r g, perf song tevs = .ok items ∧ Emits m 0 false (tevs.map fun e => tItem e e) ms r g ∧ r < 65536 ∧
+    ∃ items ms r g, perf song tevs = .ok items ∧ Emits m false 0 false (tevs.map fun e => tItem e e) ms r g ∧ r < 65536 ∧
       evs = ms ++ flushL r ++
         [⟨if g = true ∧ (totalDur items : Int) ≠ toInt (loopTime items) then mds_JUMP else mds_FINISH, 0⟩]
 
@@ -319,7 +360,7 @@ theorem parseTracks_flat {song : Song} {d : DataInfo} (hpc : PlatformClean d) (h
             obtain ⟨hr', hbt, hsimple, items, hperf⟩ := hwf
             obtain ⟨ms, r, g, hem, hrl, hout, _, _⟩ := writer_flat song evs hpc hne hr' hbt hperf hsimple 63 20000000 c
               { drumEnabled := false, inDrum := false, trackId := (id : Int) } c1 w (tl.map (·.2)) {}
-              ⟨rfl, rfl, rfl, by show (0 : Nat) < 65536; omega⟩ h0 hr
+              ⟨rfl, by show (0 : Nat) < 65536; omega⟩ rfl h0 hr
             exact ⟨items, ms, r, g, hperf, hem, hrl, by simpa using hout⟩
         exact parseTracks_flat hpc hne ids c1 _ c' tl' hi2 hf1 hch1 h
 
